@@ -196,7 +196,10 @@ class ConnectionState:
                               ResponseCode.of(b'READ-ONLY'))
             resp.add_untagged_ok(b'Read-only mailbox.', PermanentFlags([]))
         else:
-            num_recent = updates.session_flags.recent
+            # Only the messages that are announced: one that was expunged
+            # while it was being claimed is not in the selected mailbox.
+            num_recent = sum(1 for uid in updates.session_flags.recent_uids
+                             if updates.messages.get(uid) is not None)
             resp = ResponseOk(cmd.tag, b'Selected mailbox.',
                               ResponseCode.of(b'READ-WRITE'))
             resp.add_untagged_ok(b'Flags permitted.',
